@@ -65,6 +65,14 @@ theorem c13_encoding_hook (n : Str) (m : FMeta) (v : Val) (fs : List (Str × FMe
   rw [toDictL_cons]
   simp [hm, fieldEnc, he]
 
+/-- the hooked field may hold anything — in particular a dataclass instance (directly, or inside Optional / List /
+    Dict): the hook wins over the recursive `to_dict` of the nested instance (serializable.py:752-756 precedes 760-763) -/
+theorem c13_encoding_hook_on_instance (n : Str) (m : FMeta) (c : Str) (reg : Bool) (ifs : List (Str × FMeta × Val))
+    (fs : List (Str × FMeta × Val)) (h : Nat) (hm : m.toDict = true) (he : m.enc = some h) :
+    toDictL henv ((n, m, .inst c reg ifs) :: fs) =
+      (henv h (.inst c reg ifs)).bind fun e => (toDictL henv fs).bind fun qs => .ok ((.str n, e) :: qs) :=
+  c13_encoding_hook henv n m _ fs h hm he
+
 /-- **… and only that entry**: the entries of the other fields are `to_dict`'s own loop on the other fields —
     neither the hook nor the hooked value occurs in them -/
 theorem c13_hook_local (n : Str) (m : FMeta) (v : Val) (fs : List (Str × FMeta × Val)) (ps : List (Val × Val))
@@ -289,6 +297,12 @@ theorem c13_set_order_witness :
   injection h with h1 _
   injection h1 with h1
   cases h1
+
+/-- a constant hook on a field that holds an instance: the hook's answer is written, not the nested dict -/
+example :
+    toDict (fun _ _ => .ok (.str ['H'])) (.inst ['Q'] true [(['p'], { toDict := true, enc := some 12, dec := none },
+        .inst ['P'] true [(['a'], FMeta.plain, .int 1)]), (['z'], FMeta.plain, .int 2)]) =
+      .ok (.dict false [(.str ['p'], .str ['H']), (.str ['z'], .int 2)]) := by rfl
 
 /-! non-vacuity -/
 example : primOk (.inst ['K'] false [(['a'], FMeta.plain, .tuple [.set [.path ['p']], .enum ['C'] ['R']]),
